@@ -382,9 +382,12 @@ func (s *Store) mergeSegStacks(footer *Footer, splicePoint int,
 		if len(rv.childSegStacks) == 0 {
 			rv.childSegStacks = make(map[string]*segmentStack)
 		}
+		// The splicePoint is a position in this collection's own segments
+		// and means nothing for a child collection, whose footer has a
+		// segment list of its own: child collections are compacted fully.
 		if footer == nil {
 			rv.childSegStacks[cName], _ =
-				s.mergeSegStacks(nil, splicePoint, newStack)
+				s.mergeSegStacks(nil, 0, newStack)
 			continue
 		}
 
@@ -398,7 +401,7 @@ func (s *Store) mergeSegStacks(footer *Footer, splicePoint int,
 		}
 
 		rv.childSegStacks[cName], _ =
-			s.mergeSegStacks(childFooter, splicePoint, newStack)
+			s.mergeSegStacks(childFooter, 0, newStack)
 	}
 
 	return rv, rvBase
@@ -410,18 +413,8 @@ func (right *Footer) spliceFooter(left *Footer, splicePoint int) {
 	slocs = append(slocs, right.SegmentLocs...)
 	right.SegmentLocs = slocs
 
-	for cName, childFooter := range right.ChildFooters {
-		storeChildFooter, exists := left.ChildFooters[cName]
-		if exists {
-			if storeChildFooter.incarNum != childFooter.incarNum {
-				// Fast child collection recreation, ok to drop store footer's
-				// segments from prior incarnation.
-				continue
-			}
-
-			childFooter.spliceFooter(storeChildFooter, splicePoint)
-		}
-	}
+	// Child collections are compacted fully (see mergeSegStacks), so their
+	// footers are complete as written and have no prefix to restore.
 }
 
 func (s *Store) writeSegments(newSS, base *segmentStack,
